@@ -24,6 +24,8 @@ impl ChiSquared {
     pub fn set_dof(&mut self, dof: usize) -> &mut Self {
         assert!(dof > 0, "Degrees of freedom must be positive.");
         self.dof = dof;
+        // the sampler depends on the degrees of freedom as well
+        self.sampler = Gamma::new((dof as f64) / 2., 0.5);
         self
     }
 }
